@@ -288,14 +288,23 @@ func (g *Gdef) toGtab() *gdef.Table {
 }
 
 func toInfo(seq []Glyph) []glyph.Info {
+	// every glyph's Text is a sub-slice of one shared array (a caller splitting
+	// one rune slice into per-glyph pieces): a lookup that appends to a Text in
+	// place overwrites the text of the glyphs that follow
+	total := 0
+	for _, g := range seq {
+		total += len(g.Text)
+	}
+	shared := make([]rune, 0, total+2)
 	out := make([]glyph.Info, len(seq))
 	for i, g := range seq {
 		out[i].GID = glyph.ID(g.GID)
 		if len(g.Text) > 0 {
-			out[i].Text = make([]rune, len(g.Text))
-			for j, r := range g.Text {
-				out[i].Text[j] = rune(r)
+			a := len(shared)
+			for _, r := range g.Text {
+				shared = append(shared, rune(r))
 			}
+			out[i].Text = shared[a:len(shared)]
 		}
 		out[i].XOffset = funit.Int16(g.X)
 		out[i].YOffset = funit.Int16(g.Y)
